@@ -108,6 +108,8 @@ var c12Bodies = [][2]string{
 	{"whitespace-mixed", "\t \r\n"},
 	{"leading-whitespace-data", "\r\n\t {\"data\":{\"a\":5}}"},
 	{"leading-whitespace-errors", " \n{\"errors\":[{\"message\":\"ws\"}]}"},
+	{"large-errors", c12LargeErrors(60)},   // > 4 KiB
+	{"huge-errors", c12LargeErrors(1200)},  // > 64 KiB
 }
 var c12Statuses = []int{200, 200, 200, 200, 200, 200, 200, 200, 200, 200, 201, 204, 301, 400, 401, 404, 429, 500, 502, 503, 0, 599}
 
@@ -374,4 +376,18 @@ func c12SameErrors(a, b gqlerror.List) bool {
 		}
 	}
 	return true
+}
+
+// c12LargeErrors: a well-formed error document with n errors (each ~80 bytes): bodies far beyond any small buffer
+func c12LargeErrors(n int) string {
+	var sb strings.Builder
+	sb.WriteString(`{"errors":[`)
+	for i := 0; i < n; i++ {
+		if i > 0 {
+			sb.WriteString(",")
+		}
+		fmt.Fprintf(&sb, `{"message":"error number %04d of a long list, padded to a fixed width ......","path":["a"]}`, i)
+	}
+	sb.WriteString(`]}`)
+	return sb.String()
 }
